@@ -220,6 +220,25 @@ theorem C11_generated_match_is_router_call (s : Service) (o : Opts) (path : Byte
   simp only [List.find?_map, hpred]
   cases s.methods.find? ((fun i : Bytes => path == Router.routePrefix (serviceNameConst s o) ++ i) ∘ (·.ident)) <;> rfl
 
+/-- **… and it is the SAME method.**  Whatever arm the generated `match` fires on a path is the arm
+generated for the very method C10's abstract server runs: there is a method `m` of the service with
+`serverCall … = some (serverMethod s o m)` and `handlerRan = some (NAME, m.ident)`; and neither fires
+when the other does not.  (Strengthens `C11_generated_match_is_router_call`, which only equates
+whether something fires.) -/
+theorem C11_generated_match_runs_the_routers_method (s : Service) (o : Opts) (path : Bytes) :
+    (∃ m ∈ s.methods, serverCall (serverArms s o) path = some (serverMethod s o m) ∧
+        ((serverOf s o).call path).handlerRan = some (serviceNameConst s o, m.ident)) ∨
+    (serverCall (serverArms s o) path = none ∧ ((serverOf s o).call path).handlerRan = none) := by
+  have hpred : ((fun a : ServerArm => path == a.literal) ∘ serverMethod s o) =
+      ((fun i : Bytes => path == Router.routePrefix (serviceNameConst s o) ++ i) ∘ (·.ident)) := by
+    funext m
+    simp only [Function.comp, (C11_service_name_is_prefix s o m).1]
+  unfold serverCall serverArms Router.Svc.call serverOf
+  simp only [List.find?_map, hpred]
+  cases hf : s.methods.find? ((fun i : Bytes => path == Router.routePrefix (serviceNameConst s o) ++ i) ∘ (·.ident)) with
+  | none => right; simp [Router.Outcome.handlerRan]
+  | some m => left; exact ⟨m, List.mem_of_find?_eq_some hf, by simp, by simp [Router.Outcome.handlerRan]⟩
+
 /-- Conversely, an arm fires only for a path some client method produces. -/
 theorem C11_arm_fires_only_for_client_paths (s : Service) (o : Opts) (path : Bytes) (a : ServerArm)
     (h : serverCall (serverArms s o) path = some a) :
